@@ -88,7 +88,7 @@ class Ctx:
             rc = os.path.join(cov, "coveragerc")
             if not os.path.exists(rc):
                 with open(rc, "w") as f:
-                    f.write("[run]\nparallel = true\nconcurrency = multiprocessing,thread\nsigterm = true\n")
+                    f.write("[run]\nparallel = true\n")
             cmd = [build.PY, "-m", "coverage", "run", "--rcfile=" + rc, "-p", "--data-file=" + os.path.join(cov, "cov." + self.pid.lower()),
                    "--include=" + os.path.join(self.lib, "Crypto", "*")] + cmd[1:]
             timeout *= 4
